@@ -4,11 +4,12 @@
        or moved to another destination, by any callback, in any reachable state;
    (2) session ids (C08): the (flag, id) pairs given to the SD transmissions, in order, are exactly what the
        specification's per-destination counters hand out for that sequence of destinations.
-   The composite lemmas mirror the kk_* lemmas of Proofs/WorldInv2.v. *)
+   Lifted through all protocol functions by Proofs/Lift.v. *)
 From Coq Require Import Lia Permutation.
 From PS Require Import Lib.Base Lib.Struct Generated.Consts Model.SdTypes Model.Config Model.Session Model.Someip Model.SdCodec
   Model.StackTypes Model.Stack Model.StackIO Proofs.AListFacts Proofs.EqFacts Proofs.KeyEquiv Proofs.C07Proofs Proofs.QueueProofs
   Proofs.WorldInv Proofs.WorldInv2 Proofs.WorldTime.
+From PS Require Proofs.Lift.
 
 (* ------------------------------------------------------------------ reading the ghost history (newest first) *)
 Definition q_contrib (d : dest) (g : gev) : list sdentry :=
@@ -359,270 +360,12 @@ Lemma kkK_queue_send e d : kkK (queue_send e d).
 Proof. intros X w [Hg Hk]. split; [apply kk_queue_send; exact Hg|eapply K_queue_send; [exact (proj1 Hg)|exact Hk]]. Qed.
 
 (* ------------------------------------------------------------------ composite functions *)
-Ltac pair_kkK H E := let K := fresh "K" in pose proof H as K; cbv beta in K; rewrite E in K; cbn [fst snd] in K.
-
-Lemma kkK_subscriber_start : kkK subscriber_start.
-Proof.
-  intros X w Hg. unfold subscriber_start. destruct (sub_alive w); [exact Hg|].
-  destruct (new_task TSub (set_sub_alive true w)) as [t w1] eqn:E.
-  eapply GGK_same; [apply n_set_sub_task|]. pair_kkK (kkK_new_task TSub X (set_sub_alive true w)) E.
-  apply K. eapply GGK_same; [apply n_set_sub_alive|exact Hg].
-Qed.
-Lemma kkK_subscriber_stop b : kkK (subscriber_stop b).
-Proof.
-  intros X w Hg. unfold subscriber_stop. destruct (negb (sub_alive w)); [exact Hg|].
-  set (w1 := set_sub_alive false w).
-  assert (Hg1 : GGK X w1) by (eapply GGK_same; [apply n_set_sub_alive|exact Hg]).
-  set (w2 := match sub_task w1 with Some t => set_sub_task None (cancel_task t w1) | None => w1 end).
-  assert (Hg2 : GGK X w2).
-  { unfold w2. destruct (sub_task w1); [|exact Hg1]. eapply GGK_same; [apply n_set_sub_task|]. apply kkK_cancel_task. exact Hg1. }
-  destruct b; [|exact Hg2].
-  apply (kkK_fold (fun acc p => call_soon (HSendStopSub (fst p) (snd p)) acc)); [|exact Hg2].
-  intros p. apply kkK_neutral. apply n_call_soon. reflexivity.
-Qed.
-Lemma kkK_subscribe_round t : kkK (subscribe_round t).
-Proof.
-  intros X w Hg. unfold subscribe_round.
-  set (w1 := fold_left _ (group_entries (sub_entries w)) w).
-  assert (Hg1 : GGK X w1).
-  { unfold w1. apply (kkK_fold (fun acc p => send_subscribe (t_subscribe_ttl (cfg acc)) (fst p) (snd p) acc)); [|exact Hg].
-    intros p X' w' Hg'. eapply GGK_same; [apply n_send_subscribe|exact Hg']. }
-  destruct (t_refresh (cfg w1)); [apply kkK_task_sleep|apply kkK_finish_task]; exact Hg1.
-Qed.
-Lemma kkK_handle_offer e a : kkK (handle_offer e a).
-Proof.
-  intros X w Hg. unfold handle_offer. destruct (negb (is_watching e w)); [exact Hg|].
-  destruct (from_offer_entry e) as [s|]; [|exact Hg].
-  destruct (e_ttl e =? 0); [apply kkK_store_stop; exact Hg|apply kkK_store_refresh; [exact Hg|reflexivity]].
-Qed.
-Lemma kkK_discovery_start : kkK discovery_start.
-Proof.
-  intros X w Hg. unfold discovery_start.
-  match goal with |- GGK X (if ?b then _ else _) => destruct b end; [exact Hg|].
-  destruct (new_task TFind w) as [t w1] eqn:E. eapply GGK_same; [apply n_set_disc_task|].
-  pair_kkK (kkK_new_task TFind X w) E. apply K. exact Hg.
-Qed.
-Lemma kkK_discovery_stop : kkK discovery_stop.
-Proof.
-  intros X w Hg. unfold discovery_stop. destruct (disc_task w); [|exact Hg].
-  eapply GGK_same; [apply n_set_disc_task|]. apply kkK_cancel_task. exact Hg.
-Qed.
-Lemma kkK_inst_send_offer i d b : kkK (inst_send_offer i d b).
-Proof. intros X w Hg. unfold inst_send_offer. destruct (get_inst i w); [apply kkK_queue_send|]; exact Hg. Qed.
-Lemma kkK_inst_start i : kkK (fun w => fst (inst_start i w)).
-Proof.
-  intros X w Hg. unfold inst_start. destruct (get_inst i w) as [ins|] eqn:Ei; [|exact Hg].
-  destruct (in_task ins); [cbn [fst]; eapply GGK_same; [apply n_emit|exact Hg]|].
-  destruct (new_task (TOffer i) w) as [t w1] eqn:E. cbn [fst].
-  pair_kkK (kkK_new_task (TOffer i) X w) E.
-  assert (Hi1 : get_inst i w1 = Some ins).
-  { assert (w1 = snd (new_task (TOffer i) w)) as -> by (rewrite E; reflexivity). exact Ei. }
-  eapply GGK_same; [eapply n_put_inst; [exact Hi1|reflexivity]|]. apply K. exact Hg.
-Qed.
-Lemma kkK_inst_stop i : kkK (fun w => fst (inst_stop i w)).
-Proof.
-  intros X w Hg. unfold inst_stop. destruct (get_inst i w) as [ins|] eqn:Ei; [|exact Hg].
-  destruct (in_task ins) as [t|]; [|cbn [fst]; eapply GGK_same; [apply n_emit|exact Hg]].
-  cbn [fst]. apply kkK_store_stop_all.
-  set (w1 := put_inst i _ (cancel_task t w)).
-  assert (Hg1 : GGK X w1).
-  { eapply GGK_same; [eapply n_put_inst; [rewrite get_inst_cancel_task; exact Ei|reflexivity]|]. apply kkK_cancel_task. exact Hg. }
-  destruct (t_cyclic (cfg w1) =? 0); [apply kkK_inst_send_offer|]; exact Hg1.
-Qed.
-Lemma kkK_for_insts f : (forall i, kkK (fun w => fst (f i w))) -> forall l, kkK (fun w => fst (for_insts f l w)).
-Proof.
-  intros Hf. induction l as [|i l IH]; intros X w Hg; cbn [for_insts fst]; [exact Hg|].
-  destruct (f i w) as [w1 ok] eqn:E. pair_kkK (Hf i X w) E. destruct ok; [apply IH; apply K; exact Hg|cbn [fst]; apply K; exact Hg].
-Qed.
-Lemma kkK_announcer_start : kkK announcer_start.
-Proof.
-  intros X w Hg. unfold announcer_start. destruct (for_insts inst_start (announcing w) w) as [w1 ok] eqn:E.
-  pair_kkK (kkK_for_insts inst_start kkK_inst_start (announcing w) X w) E.
-  destruct ok; [eapply GGK_same; [apply n_set_ann_started|]|]; apply K; exact Hg.
-Qed.
-Lemma kkK_announcer_stop : kkK announcer_stop.
-Proof.
-  intros X w Hg. unfold announcer_stop. destruct (negb (ann_started w)); [exact Hg|].
-  destruct (for_insts inst_stop (announcing w) w) as [w1 ok] eqn:E.
-  pair_kkK (kkK_for_insts inst_stop kkK_inst_stop (announcing w) X w) E.
-  destruct ok; [eapply GGK_same; [apply n_set_ann_started|]|]; apply K; exact Hg.
-Qed.
-Lemma kkK_announce_service i : kkK (announce_service i).
-Proof.
-  intros X w Hg. unfold announce_service. destruct (ann_started w).
-  - destruct (inst_start i w) as [w1 ok] eqn:E. pair_kkK (kkK_inst_start i X w) E.
-    destruct ok; [eapply GGK_same; [apply n_set_announcing|]|]; apply K; exact Hg.
-  - eapply GGK_same; [apply n_set_announcing|exact Hg].
-Qed.
-Lemma kkK_stop_announce_service i b : kkK (stop_announce_service i b).
-Proof.
-  intros X w Hg. unfold stop_announce_service. destruct (remove_first N.eqb i (announcing w)); [|eapply GGK_same; [apply n_emit|exact Hg]].
-  assert (Hg1 : GGK X (set_announcing l w)) by (eapply GGK_same; [apply n_set_announcing|exact Hg]).
-  destruct (b && ann_started (set_announcing l w)); [apply kkK_inst_stop|]; exact Hg1.
-Qed.
-Lemma kkK_inst_handle_subscribe e a i : kkK (fun w => fst (inst_handle_subscribe e a i w)).
-Proof.
-  intros X w Hg. unfold inst_handle_subscribe. destruct (get_inst i w) as [ins|] eqn:Ei; [|exact Hg].
-  destruct (in_task ins); [|exact Hg]. destruct (matches_subscribe (in_service ins) e) as [[|]|]; try exact Hg.
-  destruct (e_ttl e =? 0); [cbn [fst]; apply kkK_store_stop; exact Hg|].
-  assert (Hh : has_store (SSubs i) w = true) by (cbn [has_store]; unfold amem; unfold get_inst in Ei; rewrite Ei; reflexivity).
-  pose proof (kkK_store_refresh X (SSubs i) (sb_ttl (from_subscribe_entry e)) a (KSub (from_subscribe_entry e)) w Hg Hh) as K.
-  destruct (store_refresh (SSubs i) (sb_ttl (from_subscribe_entry e)) a (KSub (from_subscribe_entry e)) w) as [w1 ok]. cbn [fst] in K.
-  destruct ok; cbn [fst]; [apply kkK_queue_send|unfold send_subscribe_nack; apply kkK_queue_send]; exact K.
-Qed.
-Lemma kkK_announcer_handle_subscribe e a : kkK (announcer_handle_subscribe e a).
-Proof.
-  intros X w Hg. unfold announcer_handle_subscribe.
-  assert (Hf : forall l acc, GGK X (fst acc) ->
-            GGK X (fst (fold_left (fun acc i => let '(w', m) := inst_handle_subscribe e a i (fst acc) in (w', snd acc || m)) l acc))).
-  { induction l as [|i l IH]; intros acc Ha; cbn [fold_left]; [exact Ha|]. apply IH.
-    destruct (inst_handle_subscribe e a i (fst acc)) as [w' m] eqn:E. cbn [fst].
-    pair_kkK (kkK_inst_handle_subscribe e a i X (fst acc)) E. apply K. exact Ha. }
-  specialize (Hf (announcing w) (w, false) Hg).
-  destruct (fold_left _ (announcing w) (w, false)) as [w1 any]. cbn [fst] in Hf.
-  destruct any; [exact Hf|]. unfold send_subscribe_nack. apply kkK_queue_send. exact Hf.
-Qed.
-Lemma kkK_announcer_handle_findservice e a mc : kkK (announcer_handle_findservice e a mc).
-Proof.
-  intros X w Hg. unfold announcer_handle_findservice.
-  destruct (filter _ (announcing w)) as [|i0 l0] eqn:Ef; [exact Hg|]. destruct mc.
-  - destruct (draw (t_rr_min (cfg w)) (t_rr_max (cfg w)) w) as [d w1] eqn:Ed.
-    pose proof (n_draw (t_rr_min (cfg w)) (t_rr_max (cfg w)) w) as Hs. cbv beta in Hs. rewrite Ed in Hs. cbn [snd] in Hs.
-    apply (kkK_fold (fun acc i => snd (call_later d (HAnswerFind i a) acc))); [|eapply GGK_same; eauto].
-    intros i. apply kkK_call_later. reflexivity.
-  - apply (kkK_fold (fun acc i => call_soon (HAnswerFind i a) acc)); [|exact Hg].
-    intros i. apply kkK_neutral, n_call_soon. reflexivity.
-Qed.
-Lemma kkK_answer_find i a : kkK (answer_find i a).
-Proof.
-  intros X w Hg. unfold answer_find. destruct (get_inst i w) as [ins|]; [|exact Hg].
-  destruct (in_can_answer ins); [apply kkK_inst_send_offer|]; exact Hg.
-Qed.
-Lemma kkK_announcer_reboot_detected a : kkK (announcer_reboot_detected a).
-Proof.
-  intros X w Hg. unfold announcer_reboot_detected.
-  apply (kkK_fold (fun acc i => store_stop_all_for_address (SSubs i) a acc)); [|exact Hg].
-  intros i. apply kkK_store_stop_all_for_address.
-Qed.
-Lemma kkK_offer_next t i inst : kkK (offer_next t i inst).
-Proof.
-  intros X w Hg. unfold offer_next. destruct (i <? t_rep_max (cfg w)); [apply kkK_task_sleep; exact Hg|].
-  destruct (t_cyclic (cfg w) =? 0); [apply kkK_finish_task|apply kkK_task_sleep]; exact Hg.
-Qed.
-Lemma kkK_find_next t i : kkK (find_next t i).
-Proof.
-  intros X w Hg. unfold find_next. destruct (i <? t_rep_max (cfg w)); [apply kkK_task_sleep|apply kkK_finish_task]; exact Hg.
-Qed.
-Lemma kkK_stop_offer_branch t inst : kkK (fun w =>
-  let w1 := set_can_answer inst false w in finish_task t (if t_cyclic (cfg w1) =? 0 then w1 else inst_send_offer inst None true w1)).
-Proof.
-  intros X w Hg. cbv zeta. apply kkK_finish_task.
-  assert (Hg1 : GGK X (set_can_answer inst false w)) by (eapply GGK_same; [apply n_set_can_answer|exact Hg]).
-  destruct (t_cyclic (cfg (set_can_answer inst false w)) =? 0); [|apply kkK_inst_send_offer]; exact Hg1.
-Qed.
-Lemma kkK_task_step t : kkK (task_step t).
-Proof.
-  intros X w Hg. unfold task_step. destruct (get_task t w) as [tk|]; [|exact Hg]. destruct (tk_done tk); [exact Hg|].
-  destruct (tk_kind tk) as [| |inst].
-  - destruct (tk_pc tk); destruct (tk_must_cancel tk); try (apply kkK_finish_task; exact Hg); apply kkK_subscribe_round; exact Hg.
-  - destruct (tk_pc tk) as [|p].
-    + destruct (tk_must_cancel tk); [apply kkK_finish_task; exact Hg|].
-      destruct (watched w); [apply kkK_finish_task; exact Hg|].
-      destruct (draw (t_init_min (cfg w)) (t_init_max (cfg w)) w) as [d w1] eqn:Ed.
-      pose proof (n_draw (t_init_min (cfg w)) (t_init_max (cfg w)) w) as Hs. cbv beta in Hs. rewrite Ed in Hs. cbn [snd] in Hs.
-      apply kkK_task_sleep. eapply GGK_same; eauto.
-    + destruct p; destruct (tk_must_cancel tk); try (apply kkK_finish_task; exact Hg);
-        (destruct (find_entries w) eqn:Ef; [apply kkK_finish_task; exact Hg|]; apply kkK_find_next; eapply GGK_same; [apply n_send_sd|exact Hg]).
-  - destruct (tk_pc tk) as [|p].
-    + destruct (tk_must_cancel tk); [apply kkK_finish_task; exact Hg|].
-      destruct (draw (t_init_min (cfg w)) (t_init_max (cfg w)) w) as [d w1] eqn:Ed.
-      pose proof (n_draw (t_init_min (cfg w)) (t_init_max (cfg w)) w) as Hs. cbv beta in Hs. rewrite Ed in Hs. cbn [snd] in Hs.
-      apply kkK_task_sleep. eapply GGK_same; eauto.
-    + repeat match goal with |- context [match ?q with xI _ => _ | xO _ => _ | xH => _ end] => destruct q end;
-      destruct (tk_must_cancel tk);
-      first [ apply kkK_finish_task; exact Hg
-            | apply (kkK_stop_offer_branch t inst); exact Hg
-            | apply kkK_offer_next; first [ eapply GGK_same; [apply n_set_can_answer|]; apply kkK_inst_send_offer; exact Hg
-                                         | apply kkK_inst_send_offer; exact Hg ]
-            | apply kkK_task_sleep; apply kkK_inst_send_offer; exact Hg ].
-Qed.
-Lemma kkK_sd_message_received h a mc : kkK (sd_message_received h a mc).
-Proof.
-  intros X w Hg. unfold sd_message_received. destruct (negb (sd_unicast h)); [exact Hg|].
-  apply (kkK_fold (fun acc e =>
-     if e_type e =? ET_OfferService then call_soon (HHandleOffer e a) acc
-     else if e_type e =? ET_SubscribeAck then acc
-     else if e_type e =? ET_FindService then announcer_handle_findservice e a mc acc
-     else if e_type e =? ET_Subscribe then (if mc then acc else announcer_handle_subscribe e a acc)
-     else acc)); [|exact Hg].
-  intros e X' w' Hg'. destruct (e_type e =? ET_OfferService); [eapply GGK_same; [apply n_call_soon; reflexivity|exact Hg']|].
-  destruct (e_type e =? ET_SubscribeAck); [exact Hg'|].
-  destruct (e_type e =? ET_FindService); [apply kkK_announcer_handle_findservice; exact Hg'|].
-  destruct (e_type e =? ET_Subscribe); [|exact Hg']. destruct mc; [exact Hg'|apply kkK_announcer_handle_subscribe; exact Hg'].
-Qed.
-Lemma kkK_reboot_detected a : kkK (reboot_detected a).
-Proof.
-  intros X w Hg. unfold reboot_detected. eapply GGK_same; [apply n_call_soon; reflexivity|]. apply kkK_announcer_reboot_detected. exact Hg.
-Qed.
-Lemma kkK_message_received m a mc : kkK (message_received m a mc).
-Proof.
-  intros X w Hg. unfold message_received. destruct (negb (is_sd_message m)); [exact Hg|].
-  destruct (parse_sd (m_payload m)) as [[h r]|]; [|exact Hg].
-  pose proof (n_set_sess_rx w a mc (sd_reboot h) (m_sess m)) as Hrx.
-  destruct (check_received (sess w) a mc (sd_reboot h) (m_sess m)) as [rb s']. cbn [snd] in Hrx.
-  assert (Hg1 : GGK X (set_sess s' w)) by (eapply GGK_same; [exact Hrx|exact Hg]).
-  assert (Hg2 : GGK X (if rb then reboot_detected a (set_sess s' w) else set_sess s' w)).
-  { destruct rb; [apply kkK_reboot_detected|]; exact Hg1. }
-  destruct (resolve_sd h); [apply kkK_sd_message_received|]; exact Hg2.
-Qed.
-Lemma kkK_datagram_received data a mc : kkK (datagram_received data a mc).
-Proof.
-  intros X w Hg. unfold datagram_received. apply (kkK_fold (fun acc m => message_received m a mc acc)); [|exact Hg].
-  intros m. apply kkK_message_received.
-Qed.
-Lemma kkK_exec_api c : kkK (exec_api c).
-Proof.
-  intros X w Hg. destruct c; cbn [exec_api].
-  - unfold proto_start. apply kkK_discovery_start, kkK_announcer_start, kkK_subscriber_start. exact Hg.
-  - unfold proto_stop. apply kkK_subscriber_stop, kkK_announcer_stop, kkK_discovery_stop. exact Hg.
-  - eapply GGK_same; [apply n_connection_lost|exact Hg].
-  - eapply GGK_same; [apply n_watch_service|exact Hg].
-  - eapply GGK_same; [apply n_stop_watch_service|exact Hg].
-  - eapply GGK_same; [apply n_watch_all_services|exact Hg].
-  - eapply GGK_same; [apply n_stop_watch_all_services|exact Hg].
-  - eapply GGK_same; [apply n_watch_service|exact Hg].
-  - eapply GGK_same; [apply n_stop_watch_service|exact Hg].
-  - eapply GGK_same; [apply n_subscribe_eventgroup|exact Hg].
-  - eapply GGK_same; [apply n_stop_subscribe_eventgroup|exact Hg].
-  - apply kkK_subscriber_start; exact Hg.
-  - apply kkK_subscriber_stop; exact Hg.
-  - apply kkK_discovery_start; exact Hg.
-  - apply kkK_discovery_stop; exact Hg.
-  - apply kkK_announcer_start; exact Hg.
-  - apply kkK_announcer_stop; exact Hg.
-  - apply kkK_announce_service; exact Hg.
-  - apply kkK_stop_announce_service; exact Hg.
-  - apply kkK_queue_send; exact Hg.
-  - eapply GGK_same; [apply n_send_sd|exact Hg].
-  - destruct (get_inst i w) as [ins|] eqn:Ei; [|exact Hg]. eapply GGK_same; [eapply n_put_inst; [exact Ei|reflexivity]|exact Hg].
-Qed.
-
-(* every callback except an expiry keeps both invariants; the expiry callback is treated with its pop (below) *)
+(* the generic lifting of Proofs/Lift.v with the primitives above: every protocol function, and every callback that is
+   neither an expiry nor a collector timeout, keeps ownership and history invariants together *)
 Theorem kkK_exec h : soon_ok h = true -> kkK (exec h).
 Proof.
-  intros Hn X w Hg. destruct h; cbn [exec]; try discriminate.
-  - apply kkK_datagram_received; exact Hg.
-  - apply kkK_exec_api; exact Hg.
-  - apply kkK_subscriber_stop; exact Hg.
-  - apply kkK_store_stop_all; exact Hg.
-  - apply kkK_announcer_stop; exact Hg.
-  - apply kkK_store_stop_all_for_address; exact Hg.
-  - apply kkK_handle_offer; exact Hg.
-  - eapply GGK_same; [apply n_send_subscribe|exact Hg].
-  - eapply GGK_same; [apply n_send_subscribe|exact Hg].
-  - apply kkK_answer_find; exact Hg.
-  - apply kkK_task_step; exact Hg.
-  - apply kkK_sleep_done; exact Hg.
+  exact (Lift.kk_exec GGK GGK_same kkK_call_later kkK_store_stop kkK_store_stop_all_for_address kkK_store_stop_all kkK_store_refresh
+           kkK_new_task kkK_finish_task kkK_task_sleep kkK_cancel_task kkK_sleep_done kkK_queue_send h).
 Qed.
 
 (* ------------------------------------------------------------------ the loop *)
